@@ -31,7 +31,9 @@ RULE = (
     '(canonical forms, history shape, exception class), sequence ids are pairwise distinct '
     'across threads and strictly increasing within each thread, the in-build flag and the '
     'tracking flag are as the thread itself set them at every pre-emption. Besides the random '
-    'schedules, two systematic sweeps: every k-th single pre-emption of fixed program pairs, and '
+    'schedules, systematic sweeps over 13 fixed program pairs: a single pre-emption at the first '
+    'and at the last occurrence of every distinct source line thread 0 executes (thorough: at '
+    'every step), and '
     'all double pre-emptions (0->1 at i, 1->0 at j) over the history.py steps that touch the '
     'tracking flag. Non-trivial: a '
     'pre-emption hits a thread while it is inside fdl.build or inside suspend_tracking, or '
@@ -69,17 +71,21 @@ def strategy(tier):
 
 
 def enumerate_cases(tier):
-  """Systematic single pre-emptions: for fixed two-thread scenarios, pre-empt thread 0 at each
-  k-th of its steps (quick: every 9th step of 4 scenarios; thorough: every step of 12)."""
+  """Systematic pre-emptions for fixed two-thread scenarios (see the comments below)."""
   pairs = [('build', 'json'), ('edits', 'edits'), ('first_config', 'first_config'), ('failing_build', 'build_list'),
            ('method_config', 'method_config'),
            ('tags', 'deepcopy_eq'), ('build_list', 'build'), ('json', 'select_set'), ('edits', 'first_config'),
            ('deepcopy_eq', 'json'), ('failing_build', 'failing_build'), ('build', 'build'), ('select_set', 'tags')]
-  stride = 1 if tier == 'thorough' else 9
-  use = pairs if tier == 'thorough' else pairs[:5]
-  for a, b in use:
-    for k in range(1, 1500, stride):
-      yield {'progs': [{'p': a, 'k': 1}, {'p': b, 'k': 2}], 'pre': [], 'single': k}
+  if tier == 'thorough':
+    for a, b in pairs:
+      for k in range(1, 1500):
+        yield {'progs': [{'p': a, 'k': 1}, {'p': b, 'k': 2}], 'pre': [], 'single': k}
+  # Line coverage sweep: every distinct fiddle source line executed by thread 0 is used once as a
+  # single pre-emption point, at its first and at its last occurrence.
+  for a, b in pairs:
+    for j in range(420):
+      for occ in ('first', 'last'):
+        yield {'progs': [{'p': a, 'k': 1}, {'p': b, 'k': 2}], 'pre': [], 'line': j, 'occ': occ}
   # Systematic double pre-emptions (0 -> 1 at step i of thread 0, 1 -> 0 at step j of thread 1, the
   # rest runs to completion): both points range over the steps inside history.py that read or
   # write the tracking flag (quick) / over every history.py step outside the stack walk (thorough).
@@ -280,6 +286,21 @@ def check(case):
       out.skipped = 'beyond-last-step'
       return out
     preempt[(0, k)] = 1
+  elif 'line' in case:
+    first, last = {}, {}
+    for i, tr in enumerate(solo[0].trace):
+      first.setdefault((tr[0], tr[1]), i + 1)
+      last[(tr[0], tr[1])] = i + 1
+    keys = list(first)
+    if case['line'] >= len(keys):
+      out.skipped = 'beyond-last-step'
+      return out
+    key = keys[case['line']]
+    if case['occ'] == 'last' and last[key] == first[key]:
+      out.skipped = 'beyond-last-step'
+      return out
+    preempt[(0, (first if case['occ'] == 'first' else last)[key])] = 1
+    out.cls('line_sweep')
   elif 'double' in case:
     def cands(st_):
       if case['cand'] == 'tracking':
